@@ -394,6 +394,13 @@ def replay(ck, path):
         oracle_accuracy(ck, f['path'], f['dyn'], f.get('xseed', 0), None, f.get('magbias', 1e-2))
     elif f['oracle'] == 'convert':
         oracle_convert(ck, f['path'])
+    elif f['oracle'] == 'adoption':
+        from .. import adoption
+        adoption.run(ck, ('load-double', 'f32-double-load'))
+    elif f['oracle'] == 'layout-modes':
+        oracle_layout_modes(ck)
+    elif f['oracle'] == 'convert-history':
+        oracle_convert_history(ck, f['path'])
     else:
         oracle_strided(ck, f['path'])
     for fl in ck.failures:
